@@ -198,7 +198,8 @@ def gen_case(rng, row, draw, thorough=False):
     if _has(mixins, "HmacMandatory", "Hmac"):
         c["hkey"] = bytes(rng.getrandbits(8) for _ in range(32)).hex()
     if _has(mixins, "KeyStore"):
-        k = rng.choice(["none", "ks", "ks", "otp"])
+        # "ks_empty": key source KEYSTORE without key store data (the device's own key store holds the keys)
+        k = rng.choice(["none", "ks", "ks", "ks", "otp", "otp", "ks_empty"])
         c["ks"] = [k, bytes(rng.getrandbits(8) for _ in range(1424)).hex() if k == "ks" else ""]
     if _has(mixins, "CtrInitVector"):
         c["iv"] = rng.choice([bytes(rng.getrandbits(8) for _ in range(16)), bytes(rng.getrandbits(8) for _ in range(12)) + b"\xff\xff\xff\xff",
@@ -270,7 +271,8 @@ def build(case, row):
         kw["hmac_key"] = bytes.fromhex(case["hkey"])
     if "ks" in case:
         k, d = case["ks"]
-        kw["key_store"] = None if k == "none" else KeyStore(KeySourceType.KEYSTORE, bytes.fromhex(d)) if k == "ks" else KeyStore(KeySourceType.OTP)
+        kw["key_store"] = None if k == "none" else KeyStore(KeySourceType.KEYSTORE, bytes.fromhex(d)) if k == "ks" else \
+            KeyStore(KeySourceType.KEYSTORE, None) if k == "ks_empty" else KeyStore(KeySourceType.OTP)
     if "iv" in case:
         kw["ctr_init_vector"] = bytes.fromhex(case["iv"])
     if "reloc" in case:
@@ -753,7 +755,7 @@ def model_export_line(case, obs, shape, tzs, sig=b""):
     if "hwk" in case:
         kv.append(f"hwk={int(case['hwk'])}")
     if "ks" in case:
-        kv.append("ks=" + ("none" if case["ks"][0] != "ks" else case["ks"][1] or "-"))
+        kv.append("ks=" + ("-" if case["ks"][0] == "ks_empty" else "none" if case["ks"][0] != "ks" else case["ks"][1] or "-"))
     if "hkey" in case:
         kv.append("hkey=" + case["hkey"])
     if "iv" in case:
@@ -800,6 +802,7 @@ def real_settings_line(got, cert_hex):
 # ---------------------------------------------------------------------------------------------- run
 ROWS = None
 FINDING_MC56 = "C01-mc56-image-without-type-field"
+FINDING_KS = "C01-encrypted-keystore-source-without-data"
 
 
 def _worker_init():
@@ -854,8 +857,6 @@ def run(ck, only_rows=None):
     ck.lean_obligations(generated=["MbiClasses", "IvtConsts"])
     drv = ck.driver()
     meta = ck.generated_meta["MbiClasses"]
-    import time as _t
-    ck.extra["t_lean_s"] = round(_t.time() - ck.t0, 1)
     ROWS = live_rows()
     check_generated_rows(ck, ROWS, meta)
     shape_idx = {(it, tuple(m)): i for i, (it, m) in enumerate(meta["shapes"])}
@@ -866,7 +867,7 @@ def run(ck, only_rows=None):
               "BinaryImage sub-image bookkeeping is modelled as concatenation of byte strings (BinaryImage itself: property C16)",
               "mc56 (Vx) images (no IVT): oracle only, with the tool-owned byte ranges of the application masked; not part of the Lean model",
               "AES/SHA/HMAC/CRC of the model are the Lean reference implementations (validated by C09)")
-    draws = ck.budget(6, 40)
+    draws = ck.budget(6, 150)
     rows_sel = list(range(len(ROWS))) if only_rows is None else only_rows
     first_of_shape = {}
     for ri, r in enumerate(ROWS):
@@ -897,12 +898,19 @@ def run(ck, only_rows=None):
     groups = {}
     for r in ROWS:
         groups.setdefault((r[0], r[1]), []).append(r)
-    results = []
-    with ctx.Pool(nproc, initializer=_worker_init) as pool:
-        for ri, out in pool.imap_unordered(_work, tasks, chunksize=4):
-            results.append((ri, out))
-    results.sort(key=lambda x: x[0])
-    ck.extra["t_real_s"] = round(_t.time() - ck.t0, 1)
+    pool = ctx.Pool(nproc, initializer=_worker_init)
+    block = 96 if ck.quick else 24          # rows per block (bounds the memory of the thorough tier)
+    for b0 in range(0, len(tasks), block):
+        results = sorted(pool.imap_unordered(_work, tasks[b0:b0 + block], chunksize=2), key=lambda x: x[0])
+        _process_block(ck, results, drivers, shape_idx, groups, s, sc, st, sm)
+    pool.close()
+    pool.join()
+    ck.extra["rows"] = len(ROWS)
+    ck.extra["shapes"] = len(shape_idx)
+
+
+def _process_block(ck, results, drivers, shape_idx, groups, s, sc, st, sm):
+    import concurrent.futures
     # ---- oracle results
     model_jobs = []   # (key, lines, real answers, inputs)
     for ri, out in results:
@@ -914,8 +922,9 @@ def run(ck, only_rows=None):
         for case, obs, fails in out:
             inp = {"row": list(row[:5]), "case": case}
             s.note((row[:5], case), cls=f"{tgt}/{auth}")
+            ks_empty_enc = case.get("ks", ["none"])[0] == "ks_empty" and _has(mixins, "AppTrustZoneCertBlockEncrypt")
             for f in fails:
-                finding = FINDING_MC56 if fixed_conflict else None
+                finding = FINDING_MC56 if fixed_conflict else FINDING_KS if ks_empty_enc else None
                 s.expect(False, inp, f["what"], f["observed"], f["expected"], finding=finding)
             if not drivers or vx or "export" not in obs:
                 continue
@@ -937,7 +946,7 @@ def run(ck, only_rows=None):
                         e2 = bytes.fromhex(obs["reexport_bytes"])
                         lines.append(model_parse_line("reexport", case, obs, sh, tzs, eb, e2[sr[0]:sr[1]] if sr else b""))
                         real.append("ok:" + obs["reexport_bytes"])
-                if has_ivt_row(mixins):
+                if has_ivt_row(mixins) and case.get("ks", ["none"])[0] != "ks_empty":
                     # the theorems' hypotheses and conclusions evaluated on this very case by the compiled model
                     ln = model_export_line(case, obs, sh, tzs, sig).replace("export ", "thm ", 1)
                     if "hkey" in case:
@@ -984,9 +993,6 @@ def run(ck, only_rows=None):
                         sc.compare(inp, r, a.replace("ok:", "sel:"), "parser's class selection differs from the model's selectClass")
                     else:
                         s.compare({**inp, "op": op}, _short_line(r), _short_line(a), f"{op}: model differs from implementation")
-    ck.extra["t_model_done_s"] = round(_t.time() - ck.t0, 1)
-    ck.extra["rows"] = len(ROWS)
-    ck.extra["shapes"] = len(shape_idx)
 
 
 def has_ivt_row(mixins):
